@@ -513,6 +513,14 @@ func r18TransformReportsWhatItCopied(c *cx, id string) int {
 				c.r.Unresolved(id, f.Short+": "+"copy not placed")
 				continue
 			}
+			// the counters are the first two (named) results of Transform
+			counters := map[string]types.Object{}
+			if f.Obj != nil {
+				if sig, ok := f.Obj.Type().(*types.Signature); ok && sig.Results().Len() >= 2 {
+					counters["nDst"] = sig.Results().At(0)
+					counters["nSrc"] = sig.Results().At(1)
+				}
+			}
 			adv := func(name string) func(q eng.Point, nd ast.Node) bool {
 				return func(q eng.Point, nd ast.Node) bool {
 					as, ok := nd.(*ast.AssignStmt)
@@ -520,7 +528,7 @@ func r18TransformReportsWhatItCopied(c *cx, id string) int {
 						return false
 					}
 					l, ok := ast.Unparen(as.Lhs[0]).(*ast.Ident)
-					return ok && l.Name == name && rootLocal(f, as.Rhs[0]) == nv
+					return ok && counters[name] != nil && f.Info().Uses[l] == counters[name] && rootLocal(f, as.Rhs[0]) == nv
 				}
 			}
 			for _, rs := range g.Returns {
